@@ -19,6 +19,7 @@ From Coq Require Import ZArith NArith List Bool.
 From Mpc Require Import Gen.Consts Gen.Thresholds Lang.Mini Lang.Ssa Lang.Lower Lang.LowerProof
      Lang.RunC03 Lang.RunC03Proof Lang.CircGen Lang.CircGenProof Lang.CircGenCompose.
 Import ListNotations.
+From Mpc Require Gen.State Base.StateExpected Base.StateCheck Base.StatePkgs.
 
 (* FULL statement for the model.  For every Mini program p (any number of
    functions; expressions over bool/intN/uintN of any width N with + - * / %
@@ -250,3 +251,16 @@ Theorem C03_cg_example_gmw :
   = eval_ssa ex_ssa_gmw [200; 249; 0x5a]%N.
 Proof. exact (conj (proj1 ex_ssa_gmw_wf) (conj (proj2 ex_ssa_gmw_wf) (proj1 ex_ssa_gmw_runs))). Qed.
 Print Assumptions C03_cg_example_gmw.
+
+(* STATE INVENTORY (finite obligation on the model regenerated from the source, checked by
+   computation).  The struct fields and package-level variables of the Go packages this
+   property is anchored in — compiler, compiler/ast, compiler/circuits, compiler/ssa — as emitted from /repo's current
+   source by harness/gen_state.go (Gen/State.v) are exactly those the models above were written
+   against (Base/StateExpected.v).  A new field or variable (a cache, a memo, a pool, a counter,
+   a changed field type) is state the models do not have: this obligation then breaks and the
+   property is no longer shown to hold until the change has been reviewed against the model. *)
+Theorem C03_state_inventory :
+  Mpc.Base.StateCheck.state_unchanged Mpc.Gen.State.state_inventory Mpc.Base.StateExpected.expected_state
+    Mpc.Base.StatePkgs.pkgs_C03 = true.
+Proof. vm_compute. reflexivity. Qed.
+Print Assumptions C03_state_inventory.
